@@ -80,167 +80,102 @@ variable {cfg : Cfg} {tl : TL} {ports : List String} {stmts : List Stmt}
 
 /-! ## membership -/
 
-theorem mem_vFlat (ds : List Decl) (t : VLine) : t ∈ vFlat cfg tl ds stmts ↔
+/-- the lines of one input-pin connection, spelled out -/
+theorem mem_connLines (bf : Bool) (k : Nat) (i : VInst) (c : String × Nat × String) (t : VLine) :
+    t ∈ connLines bf k (i, c) ↔
+      (isConstLit c.2.2 = true ∧ t = ⟨.cell (constName c.2.2 k) 0, .fork (constName c.2.2 k), c.2.2⟩) ∨
+      (bf = true ∧ (t = ⟨.fork (srcFork k c), .fork (branchName (srcFork k c) i.name c.1), c.2.2⟩ ∨
+                    t = ⟨.fork (branchName (srcFork k c) i.name c.1), .cell i.name c.2.1, c.2.2⟩)) ∨
+      (bf = false ∧ t = ⟨.fork (srcFork k c), .cell i.name c.2.1, c.2.2⟩) := by
+  unfold connLines
+  cases bf <;> by_cases hc : isConstLit c.2.2 = true <;> simp [hc]
+
+theorem mem_connWalk {β} (f : Nat → VInst × (String × Nat × String) → List β) (k0 : Nat) (insts : List VInst) (t : β)
+    (h : t ∈ connWalk tl f k0 insts) : ∃ k, ∃ i ∈ insts, ∃ c ∈ inConn tl i, t ∈ f k (i, c) := by
+  unfold connWalk at h
+  obtain ⟨k1, i, hi, h1⟩ := mem_walk_exists _ _ _ _ _ h
+  obtain ⟨k2, c, hc, h2⟩ := mem_walk_exists _ _ _ _ _ h1
+  exact ⟨k2, i, hi, c, hc, h2⟩
+
+theorem connWalk_of_mem {β} (f : Nat → VInst × (String × Nat × String) → List β) (k0 : Nat) (insts : List VInst) (i : VInst)
+    (hi : i ∈ insts) (c : String × Nat × String) (hc : c ∈ inConn tl i) : ∃ k, ∀ t ∈ f k (i, c), t ∈ connWalk tl f k0 insts := by
+  unfold connWalk
+  obtain ⟨k1, h1⟩ := walk_of_mem (fun k i => (inConn tl i).foldl (fun k c => nextK k c.2.2) k)
+    (fun k i => walk (fun k c => nextK k c.2.2) (fun k c => f k (i, c)) k (inConn tl i)) k0 insts i hi
+  obtain ⟨k2, h2⟩ := walk_of_mem (fun k c => nextK k c.2.2) (fun k c => f k (i, c)) k1 (inConn tl i) c hc
+  exact ⟨k2, fun t ht => h1 t (h2 t ht)⟩
+
+theorem mem_vFlat (ds : List Decl) (t : VLine) (h : t ∈ vFlat cfg tl ds stmts) :
     (∃ i ∈ vInsts stmts, ∃ o ∈ outConn tl ds i, t = ⟨.cell i.name o.1, .fork o.2, o.2⟩) ∨
     (∃ n ∈ inputNames ds, t = ⟨.cell n 0, .fork n, n⟩) ∨
-    (∃ i ∈ vInsts stmts, ∃ c ∈ inConn tl i, t ∈ readerLines cfg.bf i c) ∨
+    (∃ k, ∃ ts ∈ assignPairs ds stmts, t ∈ pairLines k ts) ∨
+    (∃ k, ∃ i ∈ vInsts stmts, ∃ c ∈ inConn tl i, t ∈ connLines cfg.bf k (i, c)) ∨
     (∃ n ∈ outputNames ds, t = ⟨.fork n, .cell n 0, n⟩) := by
+  unfold vFlat at h
+  simp only [List.mem_append, List.mem_flatMap, List.mem_map] at h
+  rcases h with (((⟨i, hi, o, ho, rfl⟩ | ⟨n, hn, rfl⟩) | hp) | hc) | ⟨n, hn, rfl⟩
+  · exact Or.inl ⟨i, hi, o, ho, rfl⟩
+  · exact Or.inr (Or.inl ⟨n, hn, rfl⟩)
+  · obtain ⟨k, ts, hts, ht⟩ := mem_walk_exists _ _ _ _ _ hp
+    exact Or.inr (Or.inr (Or.inl ⟨k, ts, hts, ht⟩))
+  · exact Or.inr (Or.inr (Or.inr (Or.inl (mem_connWalk _ _ _ _ hc))))
+  · exact Or.inr (Or.inr (Or.inr (Or.inr ⟨n, hn, rfl⟩)))
+
+theorem vFlat_inst_out (ds : List Decl) (i : VInst) (hi : i ∈ vInsts stmts) (o : Nat × String) (ho : o ∈ outConn tl ds i) :
+    (⟨.cell i.name o.1, .fork o.2, o.2⟩ : VLine) ∈ vFlat cfg tl ds stmts := by
   unfold vFlat
   simp only [List.mem_append, List.mem_flatMap, List.mem_map]
-  constructor
-  · rintro (((⟨i, hi, o, ho, rfl⟩ | ⟨n, hn, rfl⟩) | ⟨i, hi, c, hc, ht⟩) | ⟨n, hn, rfl⟩)
-    · exact Or.inl ⟨i, hi, o, ho, rfl⟩
-    · exact Or.inr (Or.inl ⟨n, hn, rfl⟩)
-    · exact Or.inr (Or.inr (Or.inl ⟨i, hi, c, hc, ht⟩))
-    · exact Or.inr (Or.inr (Or.inr ⟨n, hn, rfl⟩))
-  · rintro (⟨i, hi, o, ho, rfl⟩ | ⟨n, hn, rfl⟩ | ⟨i, hi, c, hc, ht⟩ | ⟨n, hn, rfl⟩)
-    · exact Or.inl (Or.inl (Or.inl ⟨i, hi, o, ho, rfl⟩))
-    · exact Or.inl (Or.inl (Or.inr ⟨n, hn, rfl⟩))
-    · exact Or.inl (Or.inr ⟨i, hi, c, hc, ht⟩)
-    · exact Or.inr ⟨n, hn, rfl⟩
+  exact Or.inl (Or.inl (Or.inl (Or.inl ⟨i, hi, o, ho, rfl⟩)))
+
+theorem vFlat_input (ds : List Decl) (n : String) (hn : n ∈ inputNames ds) : (⟨.cell n 0, .fork n, n⟩ : VLine) ∈ vFlat cfg tl ds stmts := by
+  unfold vFlat
+  simp only [List.mem_append, List.mem_flatMap, List.mem_map]
+  exact Or.inl (Or.inl (Or.inl (Or.inr ⟨n, hn, rfl⟩)))
+
+theorem vFlat_output (ds : List Decl) (n : String) (hn : n ∈ outputNames ds) : (⟨.fork n, .cell n 0, n⟩ : VLine) ∈ vFlat cfg tl ds stmts := by
+  unfold vFlat
+  simp only [List.mem_append, List.mem_flatMap, List.mem_map]
+  exact Or.inr ⟨n, hn, rfl⟩
+
+theorem vFlat_pair (ds : List Decl) (ts : String × String) (hts : ts ∈ assignPairs ds stmts) :
+    ∃ k, ∀ t ∈ pairLines k ts, t ∈ vFlat cfg tl ds stmts := by
+  obtain ⟨k, hk⟩ := walk_of_mem (fun k (ts : String × String) => nextK k ts.2) pairLines 0 (assignPairs ds stmts) ts hts
+  refine ⟨k, fun t ht => ?_⟩
+  unfold vFlat
+  simp only [List.mem_append]
+  exact Or.inl (Or.inl (Or.inr (hk t ht)))
+
+theorem vFlat_conn (ds : List Decl) (i : VInst) (hi : i ∈ vInsts stmts) (c : String × Nat × String) (hc : c ∈ inConn tl i) :
+    ∃ k, ∀ t ∈ connLines cfg.bf k (i, c), t ∈ vFlat cfg tl ds stmts := by
+  obtain ⟨k, hk⟩ := connWalk_of_mem (tl := tl) (connLines cfg.bf) ((assignPairs ds stmts).foldl (fun k ts => nextK k ts.2) 0) (vInsts stmts) i hi c hc
+  refine ⟨k, fun t ht => ?_⟩
+  unfold vFlat
+  simp only [List.mem_append]
+  exact Or.inl (Or.inr (hk t ht))
 
 theorem mem_drivenSigs (ds : List Decl) (s : String) : s ∈ drivenSigs tl ds stmts ↔
-    (∃ i ∈ vInsts stmts, ∃ o ∈ outConn tl ds i, o.2 = s) ∨ s ∈ inputNames ds := by
+    (∃ i ∈ vInsts stmts, ∃ o ∈ outConn tl ds i, o.2 = s) ∨ s ∈ inputNames ds ∨ ∃ ts ∈ assignPairs ds stmts, ts.1 = s := by
   unfold drivenSigs
-  simp only [List.mem_append, List.mem_flatMap, List.mem_map]
+  simp only [List.mem_append, List.mem_flatMap, List.mem_map, or_assoc]
 
-/-- every driven signal has a line into its fork, carrying it -/
+/-- every driven signal has a line into its fork -/
 theorem driven_has_line (ds : List Decl) (s : String) (hs : s ∈ drivenSigs tl ds stmts) :
-    ∃ t ∈ vFlat cfg tl ds stmts, t.r = .fork s ∧ t.sig = s := by
-  rcases (mem_drivenSigs ds s).mp hs with ⟨i, hi, o, ho, rfl⟩ | hn
-  · exact ⟨_, (mem_vFlat ds _).mpr (Or.inl ⟨i, hi, o, ho, rfl⟩), rfl, rfl⟩
-  · exact ⟨_, (mem_vFlat ds _).mpr (Or.inr (Or.inl ⟨s, hn, rfl⟩)), rfl, rfl⟩
+    ∃ t ∈ vFlat cfg tl ds stmts, t.r = .fork s := by
+  rcases (mem_drivenSigs ds s).mp hs with ⟨i, hi, o, ho, rfl⟩ | hn | ⟨ts, hts, rfl⟩
+  · exact ⟨_, vFlat_inst_out ds i hi o ho, rfl⟩
+  · exact ⟨_, vFlat_input ds s hn, rfl⟩
+  · obtain ⟨k, hk⟩ := vFlat_pair (cfg := cfg) (tl := tl) ds ts hts
+    unfold pairLines at hk
+    by_cases hc : isConstLit ts.2 = true
+    · simp only [hc, if_true, List.mem_singleton, forall_eq] at hk
+      exact ⟨_, hk, rfl⟩
+    · simp only [hc, Bool.false_eq_true, if_false, List.mem_singleton, forall_eq] at hk
+      exact ⟨_, hk, rfl⟩
 
 /-! ## one line per reader end point -/
 
-theorem fm_map {β γ} (l : List β) (f : β → VLine) (g : Ep → Option γ) (h : β → Option γ) (hh : ∀ x, g (f x).r = h x) :
-    ((l.map f).map (·.r)).filterMap g = l.filterMap h := by
-  induction l with
-  | nil => rfl
-  | cons a r ih => simp only [List.map_cons, List.filterMap_cons, hh a, ih]
-
-theorem fm_flatMap {β γ} (l : List β) (f : β → List VLine) (g : Ep → Option γ) :
-    ((l.flatMap f).map (·.r)).filterMap g = l.flatMap fun x => ((f x).map (·.r)).filterMap g := by
-  induction l with
-  | nil => rfl
-  | cons a r ih => simp only [List.flatMap_cons, List.map_append, List.filterMap_append, ih]
-
-theorem filterMap_some_map {β γ} (l : List β) (f : β → γ) : l.filterMap (fun x => some (f x)) = l.map f := by
-  induction l with
-  | nil => rfl
-  | cons a r ih => simp only [List.filterMap_cons, List.map_cons, ih]
-
-theorem filterMap_none' {β γ} (l : List β) : l.filterMap (fun _ => (none : Option γ)) = [] := by
-  induction l with
-  | nil => rfl
-  | cons a r ih => simp only [List.filterMap_cons, ih]
-
-theorem flatMap_nil'' {β γ} (l : List β) : l.flatMap (fun _ => ([] : List γ)) = [] := by
-  induction l with
-  | nil => rfl
-  | cons a r ih => simp only [List.flatMap_cons, ih, List.append_nil]
-
-theorem readers_forks (ds : List Decl) :
-    ((vFlat cfg tl ds stmts).map (·.r)).filterMap epFork = drivenSigs tl ds stmts ++ if cfg.bf then branchNames tl stmts else [] := by
-  unfold vFlat drivenSigs
-  rw [List.map_append, List.map_append, List.map_append, List.filterMap_append, List.filterMap_append, List.filterMap_append]
-  have p1 : (((vInsts stmts).flatMap fun i => (outConn tl ds i).map fun o => (⟨.cell i.name o.1, .fork o.2, o.2⟩ : VLine)).map (·.r)).filterMap
-      epFork = (vInsts stmts).flatMap fun i => (outConn tl ds i).map (·.2) := by
-    rw [fm_flatMap]
-    congr 1
-    funext i
-    rw [fm_map _ _ epFork (fun o => some o.2) (fun _ => rfl), filterMap_some_map]
-  have p2 : (((inputNames ds).map fun n => (⟨.cell n 0, .fork n, n⟩ : VLine)).map (·.r)).filterMap epFork = inputNames ds := by
-    rw [fm_map _ _ epFork (fun n => some n) (fun _ => rfl), filterMap_some_map, List.map_id']
-  have p3 : (((vInsts stmts).flatMap fun i => (inConn tl i).flatMap (readerLines cfg.bf i)).map (·.r)).filterMap epFork =
-      if cfg.bf then branchNames tl stmts else [] := by
-    rw [fm_flatMap]
-    unfold branchNames
-    cases hb : cfg.bf
-    · simp only [Bool.false_eq_true, if_false]
-      have : (fun i : VInst => (((inConn tl i).flatMap (readerLines false i)).map (·.r)).filterMap epFork) = fun _ => [] := by
-        funext i
-        rw [fm_flatMap]
-        exact flatMap_nil'' _
-      rw [this, flatMap_nil'']
-    · simp only [if_true]
-      congr 1
-      funext i
-      rw [fm_flatMap]
-      induction inConn tl i with
-      | nil => rfl
-      | cons c r ih => simp only [List.flatMap_cons, List.map_cons, ih]; rfl
-  have p4 : (((outputNames ds).map fun n => (⟨.fork n, .cell n 0, n⟩ : VLine)).map (·.r)).filterMap epFork = [] := by
-    rw [fm_map _ _ epFork (fun _ => none) (fun _ => rfl), filterMap_none']
-  rw [p1, p2, p3, p4, List.append_nil]
-
-theorem readers_cells (ds : List Decl) :
-    ((vFlat cfg tl ds stmts).map (·.r)).filterMap epCell =
-      ((vInsts stmts).flatMap fun i => (inConn tl i).map fun c => (i.name, c.2.1)) ++ (outputNames ds).map fun n => (n, 0) := by
-  unfold vFlat
-  rw [List.map_append, List.map_append, List.map_append, List.filterMap_append, List.filterMap_append, List.filterMap_append]
-  have p1 : (((vInsts stmts).flatMap fun i => (outConn tl ds i).map fun o => (⟨.cell i.name o.1, .fork o.2, o.2⟩ : VLine)).map (·.r)).filterMap
-      epCell = [] := by
-    rw [fm_flatMap]
-    have : (fun i : VInst => (((outConn tl ds i).map fun o => (⟨.cell i.name o.1, .fork o.2, o.2⟩ : VLine)).map (·.r)).filterMap epCell) =
-        fun _ => [] := by
-      funext i
-      rw [fm_map _ _ epCell (fun _ => none) (fun _ => rfl), filterMap_none']
-    rw [this, flatMap_nil'']
-  have p2 : (((inputNames ds).map fun n => (⟨.cell n 0, .fork n, n⟩ : VLine)).map (·.r)).filterMap epCell = [] := by
-    rw [fm_map _ _ epCell (fun _ => none) (fun _ => rfl), filterMap_none']
-  have p3 : (((vInsts stmts).flatMap fun i => (inConn tl i).flatMap (readerLines cfg.bf i)).map (·.r)).filterMap epCell =
-      (vInsts stmts).flatMap fun i => (inConn tl i).map fun c => (i.name, c.2.1) := by
-    rw [fm_flatMap]
-    congr 1
-    funext i
-    rw [fm_flatMap]
-    induction inConn tl i with
-    | nil => rfl
-    | cons c r ih =>
-      simp only [List.flatMap_cons, List.map_cons, ih]
-      cases cfg.bf <;> rfl
-  have p4 : (((outputNames ds).map fun n => (⟨.fork n, .cell n 0, n⟩ : VLine)).map (·.r)).filterMap epCell =
-      (outputNames ds).map fun n => (n, 0) := by
-    rw [fm_map _ _ epCell (fun n => some (n, 0)) (fun _ => rfl), filterMap_some_map]
-  rw [p1, p2, p3, p4, List.nil_append, List.nil_append]
-
-theorem inst_pins_nodup (l : List VInst) (hn : (l.map (·.name)).Nodup) (hi : ∀ i ∈ l, ((inConn tl i).map (·.2.1)).Nodup) :
-    (l.flatMap fun i => (inConn tl i).map fun c => (i.name, c.2.1)).Nodup := by
-  induction l with
-  | nil => exact List.nodup_nil
-  | cons i r ih =>
-    simp only [List.map_cons, List.nodup_cons] at hn
-    simp only [List.flatMap_cons]
-    rw [List.nodup_append]
-    refine ⟨?_, ih hn.2 (fun j hj => hi j (List.mem_cons_of_mem _ hj)), ?_⟩
-    · exact nodup_map_of_imp (fun c : String × Nat × String => c.2.1) (fun c => (i.name, c.2.1)) (fun x y h => by simpa using h) _
-        (hi i List.mem_cons_self)
-    · intro a ha b hb hab
-      subst hab
-      obtain ⟨c, _, rfl⟩ := List.mem_map.mp ha
-      obtain ⟨j, hj, hb'⟩ := List.mem_flatMap.mp hb
-      obtain ⟨c', _, hc'⟩ := List.mem_map.mp hb'
-      simp only [Prod.mk.injEq] at hc'
-      exact hn.1 (List.mem_map.mpr ⟨j, hj, hc'.1⟩)
-
 theorem vFlat_readers_nodup (hok : VOK cfg tl ports stmts) :
-    ((vFlat cfg tl (sigDecls stmts) stmts).map (·.r)).Nodup := by
-  apply nodup_ep
-  · rw [readers_forks]; exact hok.forks
-  · rw [readers_cells]
-    obtain ⟨hc1, hc2, hc3⟩ := List.nodup_append.mp hok.cells
-    rw [List.nodup_append]
-    refine ⟨inst_pins_nodup _ hc1 hok.inIdx, ?_, ?_⟩
-    · exact nodup_map_of_imp id (fun n : String => (n, 0)) (fun x y h => by simpa using h) _
-        (by simpa using outputNames_nodup _ hc2)
-    · intro a ha b hb hab
-      subst hab
-      obtain ⟨i, hi, ha'⟩ := List.mem_flatMap.mp ha
-      obtain ⟨c, _, rfl⟩ := List.mem_map.mp ha'
-      obtain ⟨n, hn, hb'⟩ := List.mem_map.mp hb
-      simp only [Prod.mk.injEq] at hb'
-      exact hc3 i.name (List.mem_map.mpr ⟨i, hi, rfl⟩) n (mem_portBitNames_of_output _ n hn) hb'.1.symm
+    ((vFlat cfg tl (sigDecls stmts) stmts).map (·.r)).Nodup := hok.readers
 
 theorem vFlat_line_eq (hok : VOK cfg tl ports stmts) (t t' : VLine) (ht : t ∈ vFlat cfg tl (sigDecls stmts) stmts)
     (ht' : t' ∈ vFlat cfg tl (sigDecls stmts) stmts) (h : t.r = t'.r) : t = t' :=
@@ -250,11 +185,11 @@ theorem vFlat_line_eq (hok : VOK cfg tl ports stmts) (t t' : VLine) (ht : t ∈ 
 
 theorem inst_eq (hok : VOK cfg tl ports stmts) {i j : VInst} (hi : i ∈ vInsts stmts) (hj : j ∈ vInsts stmts) (h : i.name = j.name) :
     i = j :=
-  nodup_map_inj (·.name) _ (List.nodup_append.mp hok.cells).1 i hi j hj h
+  nodup_map_inj (·.name) _ (List.nodup_append.mp (List.nodup_append.mp hok.cells).1).1 i hi j hj h
 
 theorem inst_not_port (hok : VOK cfg tl ports stmts) {i : VInst} (hi : i ∈ vInsts stmts) (n : String)
     (hn : n ∈ portBitNames (sigDecls stmts)) : i.name ≠ n :=
-  (List.nodup_append.mp hok.cells).2.2 i.name (List.mem_map.mpr ⟨i, hi, rfl⟩) n hn
+  (List.nodup_append.mp (List.nodup_append.mp hok.cells).1).2.2 i.name (List.mem_map.mpr ⟨i, hi, rfl⟩) n hn
 
 /-- the signal on input pin index `k` -/
 theorem inSig_iff (hok : VOK cfg tl ports stmts) (i : VInst) (hi : i ∈ vInsts stmts) (k : Nat) (s : String) :
@@ -281,38 +216,39 @@ theorem inSig_iff (hok : VOK cfg tl ports stmts) (i : VInst) (hi : i ∈ vInsts 
       rw [this]
       simp [hs]
 
-/-- a line into pin `k` of an instance cell carries the signal connected to that pin -/
+/-- a line into pin `k` of an instance cell carries the signal (or constant) connected to that pin -/
 theorem reader_cell_inst (hok : VOK cfg tl ports stmts) (i : VInst) (hi : i ∈ vInsts stmts) (k : Nat) (t : VLine)
     (ht : t ∈ vFlat cfg tl (sigDecls stmts) stmts) (hr : t.r = .cell i.name k) : inSig tl i k = some t.sig := by
-  rcases (mem_vFlat _ t).mp ht with ⟨_, _, _, _, rfl⟩ | ⟨_, _, rfl⟩ | ⟨j, hj, c, hc, htc⟩ | ⟨n, hn, rfl⟩
+  rcases mem_vFlat _ t ht with ⟨_, _, _, _, rfl⟩ | ⟨_, _, rfl⟩ | ⟨kk, ts, _, htp⟩ | ⟨kk, j, hj, c, hc, htc⟩ | ⟨n, hn, rfl⟩
   · cases hr
   · cases hr
-  · unfold readerLines at htc
-    have key : t.r = .cell j.name c.2.1 ∧ t.sig = c.2.2 := by
-      cases hb : cfg.bf
-      · simp only [hb, Bool.false_eq_true, if_false, List.mem_singleton] at htc
-        subst htc; exact ⟨rfl, rfl⟩
-      · simp only [hb, if_true, List.mem_cons, List.not_mem_nil, or_false] at htc
-        rcases htc with rfl | rfl
-        · cases hr
-        · exact ⟨rfl, rfl⟩
-    rw [key.1] at hr
-    simp only [Ep.cell.injEq] at hr
-    have := inst_eq hok hj hi hr.1
-    subst this
-    exact (inSig_iff hok j hi k t.sig).mpr ⟨c, hc, hr.2, key.2.symm⟩
+  · unfold pairLines at htp
+    split at htp <;> (simp only [List.mem_singleton] at htp; subst htp; cases hr)
+  · rcases (mem_connLines cfg.bf kk j c t).mp htc with ⟨_, rfl⟩ | ⟨_, rfl | rfl⟩ | ⟨_, rfl⟩
+    · cases hr
+    · cases hr
+    · simp only [Ep.cell.injEq] at hr
+      have := inst_eq hok hj hi hr.1
+      subst this
+      exact (inSig_iff hok j hi k c.2.2).mpr ⟨c, hc, hr.2, rfl⟩
+    · simp only [Ep.cell.injEq] at hr
+      have := inst_eq hok hj hi hr.1
+      subst this
+      exact (inSig_iff hok j hi k c.2.2).mpr ⟨c, hc, hr.2, rfl⟩
   · simp only [Ep.cell.injEq] at hr
     exact absurd hr.1.symm (inst_not_port hok hi n (mem_portBitNames_of_output _ n hn))
 
 /-- a connected input pin has its line -/
 theorem inst_pin_line (i : VInst) (hi : i ∈ vInsts stmts) (ds : List Decl) (c : String × Nat × String) (hc : c ∈ inConn tl i) :
     ∃ t ∈ vFlat cfg tl ds stmts, t.r = .cell i.name c.2.1 ∧ t.sig = c.2.2 := by
+  obtain ⟨k, hk⟩ := vFlat_conn (cfg := cfg) ds i hi c hc
   cases hb : cfg.bf
-  · refine ⟨⟨.fork c.2.2, .cell i.name c.2.1, c.2.2⟩, (mem_vFlat ds _).mpr (Or.inr (Or.inr (Or.inl ⟨i, hi, c, hc, ?_⟩))), rfl, rfl⟩
-    simp [readerLines, hb]
-  · refine ⟨⟨.fork (branchName c.2.2 i.name c.1), .cell i.name c.2.1, c.2.2⟩,
-      (mem_vFlat ds _).mpr (Or.inr (Or.inr (Or.inl ⟨i, hi, c, hc, ?_⟩))), rfl, rfl⟩
-    simp [readerLines, hb]
+  · refine ⟨⟨.fork (srcFork k c), .cell i.name c.2.1, c.2.2⟩, hk _ ?_, rfl, rfl⟩
+    rw [mem_connLines]
+    exact Or.inr (Or.inr ⟨hb, rfl⟩)
+  · refine ⟨⟨.fork (branchName (srcFork k c) i.name c.1), .cell i.name c.2.1, c.2.2⟩, hk _ ?_, rfl, rfl⟩
+    rw [mem_connLines]
+    exact Or.inr (Or.inl ⟨hb, Or.inr rfl⟩)
 
 end
 end KV.Netlist
